@@ -483,6 +483,8 @@ func (idx *MergeSetIndex) putIndexSearch(is *indexSearch) {
 	is.vrp.Reset()
 	is.idx = nil
 	is.tfs = is.tfs[:0]
+	// the pool is shared by all indexes of the process: the deleted-id set of this index must not travel with the object
+	is.deleted = nil
 	indexSearchPool.Put(is)
 }
 
